@@ -102,7 +102,7 @@ def generate_timeseries(ctx):
         st = {}
         ns = namespace(ctx)
         harness.define(ctx, ns, MOD, "_make_cache")
-        f = harness.define(ctx, ns, MOD, "run_bldfm_timeseries", loop_specs={0: SeriesLoop(st)})
+        f = harness.define(ctx, ns, MOD, "run_bldfm_timeseries", loop_specs={"outer:results": SeriesLoop(st)})
 
         def thunk(run, use_flux=use_flux, ns=ns, f=f, st=st):
             config, n_time, n_tow, tower = make_world(run)
@@ -125,7 +125,7 @@ def generate_timeseries(ctx):
             out = harness.call(run, f, config, tw, surface_flux=flux)
             want = spec_series(config, tw, flux, made[0] if made else None, n_time)
             run.oblige("series-is-the-single-runs-in-time-order", veq(out.value, want), kind="post")
-            run.oblige("at-most-one-cache-per-series", SBool(len(made) <= 1), kind="post")
+            run.oblige("at-most-one-cache-per-series", SBool(len(made) <= 1), kind="post", meta={"structural": True})
             # cache created iff use_cache and footprint
             if made:
                 run.oblige("cache-only-when-enabled", config.parallel.use_cache & config.solver.footprint, kind="post")
@@ -156,7 +156,7 @@ def generate_multitower(ctx):
         return
     st = {}
     ns = namespace(ctx)
-    f = harness.define(ctx, ns, MOD, "run_bldfm_multitower", loop_specs={0: TowerLoop(st)})
+    f = harness.define(ctx, ns, MOD, "run_bldfm_multitower", loop_specs={"outer:results": TowerLoop(st)})
     for use_flux in (True, False):
         def thunk(run, use_flux=use_flux):
             config, n_time, n_tow, tower = make_world(run)
@@ -270,7 +270,7 @@ def generate_parallel(ctx):
         def state_at(self, ctl, t):
             return {"results": SDict(t, lambda k: st["tower"](k).name, lambda k: st["series"](st["tower"](k)), name="results"),
                     "idx": values.BList.off(t, st["n_time"])}
-    f = harness.define(ctx, ns, MOD, "run_bldfm_parallel", loop_specs={0: TimeLoop(st), 1: BothOuter(), 2: BothInner(), 3: BothRegroup()})
+    f = harness.define(ctx, ns, MOD, "run_bldfm_parallel", loop_specs={"outer:step_results": TimeLoop(st), "outer:tasks!step_results": BothOuter(), "inner:tasks": BothInner(), "outer:idx": BothRegroup()})
 
     def setup(run, strategy, workers_given):
         config, n_time, n_tow, tower = make_world(run)
